@@ -32,23 +32,28 @@ Proof. exact locate_contents. Qed.
 Print Assumptions node_list_contents.
 
 (* so the quiet path's "first hit" is the maximum of the list *)
-Theorem first_match_is_maximum : forall (node : Type) (pmatch : N -> node -> bool) l mode n t,
-  StronglySorted ge_entry l -> find_in_list node pmatch l mode n = Some t ->
-  exists e, In e l /\ e_tmpl e = t /\ ok node pmatch mode n e = true /\
-            forall e', In e' l -> ok node pmatch mode n e' = true -> ge_entry e e'.
+Theorem first_match_is_maximum : forall (node : Type) (pmatch : N -> node -> bool) pa l mode n t,
+  StronglySorted ge_entry l -> find_in_list node pmatch pa l mode n = Some t ->
+  exists e, In e l /\ e_tmpl e = t /\ ok node pmatch pa mode n e = true /\
+            forall e', In e' l -> ok node pmatch pa mode n e' = true -> ge_entry e e'.
 Proof. exact find_in_list_some. Qed.
 Print Assumptions first_match_is_maximum.
 
 (* ---------------------------------------------------------------------------------------- *)
 (* 2. the choice against XSLT 1.0 section 5.5 *)
 
-(* Under the guard left by the refutation K1 below — a template without priority attribute has
-   alternatives of one default priority — and for a matcher that respects the shapes of the
-   alternatives (every alternative's target is what getTargetData reports for its shape; the
-   matcher accepts only nodes the last step can match), findTemplate over the compiled import
-   tree returns a template iff some rule of the mode matches, and then the template of a rule that
-   is maximal in (import precedence [post-order number of its stylesheet], priority [explicit or
-   default of the alternative], position). *)
+(* The model has both variants of Stylesheet::findTemplate: [pa = true]: a table entry is tested
+   with the alternative it was created for (after the repair of K1); [pa = false]: with the whole
+   match pattern.  Which one the current tree has is the generated fact [gen_per_alternative].
+
+   For a matcher that respects the shapes of the alternatives (every alternative's target is what
+   getTargetData reports for its shape; the matcher accepts only nodes the last step can match),
+   findTemplate over the compiled import tree returns a template iff some rule of the mode
+   matches, and then the template of a rule that is maximal in (import precedence [post-order
+   number of its stylesheet], priority [explicit or default of the alternative], position) —
+   without any guard in the per-alternative variant, and in the whole-pattern variant under the
+   guard left by the refutation K1 below: a template without priority attribute has alternatives
+   of one default priority. *)
 Definition matcher_respects_shapes (node : Type) (key_of : node -> nkey) (pmatch : N -> node -> bool)
            (s : sheet) (n : node) (shape_of : alt -> shape) : Prop :=
   forall t a, In t (all_templates s) -> In a (t_alts t) ->
@@ -56,16 +61,38 @@ Definition matcher_respects_shapes (node : Type) (key_of : node -> nkey) (pmatch
     (pmatch (a_pat a) n = true -> step_may_match (sh_last (shape_of a)) (key_of n) = true).
 
 Theorem find_template_spec_partial :
-  forall (node : Type) (key_of : node -> nkey) (pmatch : N -> node -> bool) s mode n shape_of,
-  uniform_union_priorities s = true ->
+  forall (node : Type) (key_of : node -> nkey) (pmatch : N -> node -> bool) pa s mode n shape_of,
+  pa = true \/ uniform_union_priorities s = true ->
   matcher_respects_shapes node key_of pmatch s n shape_of ->
   spec_choice node pmatch (rules_of s) mode n
-              (find_template node key_of pmatch true (compile s) mode n false).
+              (find_template node key_of pmatch pa true (compile s) mode n false).
 Proof.
-  intros node key_of pmatch s mode n shape_of Hu Hm.
+  intros node key_of pmatch pa s mode n shape_of Hu Hm.
   apply find_template_spec_lemma; [exact Hu|]. exact (filed_from_shapes node key_of pmatch s n shape_of Hm).
 Qed.
 Print Assumptions find_template_spec_partial.
+
+(* the full statement for the per-alternative variant: every set of template rules *)
+Theorem find_template_spec :
+  forall (node : Type) (key_of : node -> nkey) (pmatch : N -> node -> bool) s mode n shape_of,
+  matcher_respects_shapes node key_of pmatch s n shape_of ->
+  spec_choice node pmatch (rules_of s) mode n
+              (find_template node key_of pmatch true true (compile s) mode n false).
+Proof.
+  intros node key_of pmatch s mode n shape_of Hm.
+  exact (find_template_spec_partial node key_of pmatch true s mode n shape_of (or_introl eq_refl) Hm).
+Qed.
+Print Assumptions find_template_spec.
+
+(* ... and for the tree the facts were generated from *)
+Theorem find_template_spec_this_tree :
+  forall (node : Type) (key_of : node -> nkey) (pmatch : N -> node -> bool) s mode n shape_of,
+  gen_per_alternative = true \/ uniform_union_priorities s = true ->
+  matcher_respects_shapes node key_of pmatch s n shape_of ->
+  spec_choice node pmatch (rules_of s) mode n
+              (find_template node key_of pmatch gen_per_alternative true (compile s) mode n false).
+Proof. intros node key_of pmatch. exact (find_template_spec_partial node key_of pmatch gen_per_alternative). Qed.
+Print Assumptions find_template_spec_this_tree.
 
 (* the same as an equation: [best_5_5] is the executable maximum of (precedence, priority,
    position) over the applicable rules; it satisfies [spec_choice], and [spec_choice] has a single
@@ -77,15 +104,15 @@ Proof. exact best_5_5_spec. Qed.
 Print Assumptions best_5_5_is_the_specified_choice.
 
 Theorem find_template_eq_best_partial :
-  forall (node : Type) (key_of : node -> nkey) (pmatch : N -> node -> bool) s mode n shape_of,
-  uniform_union_priorities s = true ->
+  forall (node : Type) (key_of : node -> nkey) (pmatch : N -> node -> bool) pa s mode n shape_of,
+  pa = true \/ uniform_union_priorities s = true ->
   matcher_respects_shapes node key_of pmatch s n shape_of ->
-  find_template node key_of pmatch true (compile s) mode n false =
+  find_template node key_of pmatch pa true (compile s) mode n false =
   option_map r_tmpl (best_5_5 node pmatch (rules_of s) mode n) /\
-  find_template node key_of pmatch true (compile s) mode n true =
+  find_template node key_of pmatch pa true (compile s) mode n true =
   option_map r_tmpl (best_5_5 node pmatch (imported_rules s) mode n).
 Proof.
-  intros node key_of pmatch s mode n shape_of Hu Hm.
+  intros node key_of pmatch pa s mode n shape_of Hu Hm.
   pose proof (filed_from_shapes node key_of pmatch s n shape_of Hm) as Hf. split.
   - apply (spec_choice_unique node pmatch (postorder s) 0%nat mode n).
     + apply find_template_spec_lemma; assumption.
@@ -95,6 +122,19 @@ Proof.
     + apply best_5_5_spec.
 Qed.
 Print Assumptions find_template_eq_best_partial.
+
+Theorem find_template_eq_best :
+  forall (node : Type) (key_of : node -> nkey) (pmatch : N -> node -> bool) s mode n shape_of,
+  matcher_respects_shapes node key_of pmatch s n shape_of ->
+  find_template node key_of pmatch true true (compile s) mode n false =
+  option_map r_tmpl (best_5_5 node pmatch (rules_of s) mode n) /\
+  find_template node key_of pmatch true true (compile s) mode n true =
+  option_map r_tmpl (best_5_5 node pmatch (imported_rules s) mode n).
+Proof.
+  intros node key_of pmatch s mode n shape_of Hm.
+  exact (find_template_eq_best_partial node key_of pmatch true s mode n shape_of (or_introl eq_refl) Hm).
+Qed.
+Print Assumptions find_template_eq_best.
 
 (* a stylesheet used by the witnesses: match="a" then match="a[b]|*"; local name a = 5 *)
 Definition alt_a : alt := {| a_pat := 0; a_target := {| tg_name := TNName 5; tg_type := TTElement |}; a_score := ScQName |}.
@@ -107,15 +147,16 @@ Definition k1_sheet : sheet := Sheet [ITmpl k1_t1; ITmpl k1_t2] [].
 Definition k1_key (_ : N) : nkey := KElem 5.
 Definition k1_match (p : N) (_ : N) : bool := negb (p =? 1)%N.
 
-(* K1: the entry of alternative a[b] (0.5) is tested with the whole union, which matches through
-   '*' (-0.5); the union's template beats match="a" (0) *)
+(* K1, whole-pattern variant: the entry of alternative a[b] (0.5) is tested with the whole union,
+   which matches through '*' (-0.5); the union's template beats match="a" (0).  So the guard of
+   find_template_spec_partial is needed there *)
 Theorem find_template_spec_refuted : exists s mode (n : N),
   filed_where_matching N k1_key k1_match s n = true /\
   ~ spec_choice N k1_match (rules_of s) mode n
-                (find_template N k1_key k1_match true (compile s) mode n false).
+                (find_template N k1_key k1_match false true (compile s) mode n false).
 Proof.
   exists k1_sheet, None, 0%N. split; [reflexivity|].
-  replace (find_template N k1_key k1_match true (compile k1_sheet) None 0%N false) with (Some k1_t2) by reflexivity.
+  replace (find_template N k1_key k1_match false true (compile k1_sheet) None 0%N false) with (Some k1_t2) by reflexivity.
   intros (r & Hin & Happ & Ht & Hmax).
   cbn in Hin. destruct Hin as [<-|[<-|[<-|[]]]].
   - discriminate Ht.
@@ -128,6 +169,14 @@ Proof.
 Qed.
 Print Assumptions find_template_spec_refuted.
 
+(* the same instance in the per-alternative variant: match="a" is chosen, on both paths *)
+Example union_alternatives_are_separate_rules :
+  find_template N k1_key k1_match true true (compile k1_sheet) None 0%N false = Some k1_t1 /\
+  find_template N k1_key k1_match true false (compile k1_sheet) None 0%N false = Some k1_t1 /\
+  option_map r_tmpl (best_5_5 N k1_match (rules_of k1_sheet) None 0%N) = Some k1_t1.
+Proof. vm_compute. repeat split. Qed.
+Print Assumptions union_alternatives_are_separate_rules.
+
 (* regression example for the repaired defect K2 (function-headed patterns were filed under the
    element and attribute wildcards only): match="key(..)" now fires for a text node *)
 Definition alt_key : alt := {| a_pat := 0; a_target := {| tg_name := TNAny; tg_type := TTAny |}; a_score := ScOther |}.
@@ -135,9 +184,9 @@ Definition k2_t : template := {| t_id := 1; t_mode := None; t_prio := None; t_al
 Definition k2_sheet : sheet := Sheet [ITmpl k2_t] [].
 
 Example function_pattern_fires_for_every_node_kind :
-  forall k, In k [KText; KComment; KPI; KRoot; KElem 5; KAttr 5] ->
-  find_template N (fun _ => k) (fun _ _ => true) true (compile k2_sheet) None 0%N false = Some k2_t.
-Proof. intros k Hk. cbn in Hk. destruct Hk as [<-|[<-|[<-|[<-|[<-|[<-|[]]]]]]]; reflexivity. Qed.
+  forall pa k, In k [KText; KComment; KPI; KRoot; KElem 5; KAttr 5] ->
+  find_template N (fun _ => k) (fun _ _ => true) pa true (compile k2_sheet) None 0%N false = Some k2_t.
+Proof. intros pa k Hk. cbn in Hk. destruct pa; destruct Hk as [<-|[<-|[<-|[<-|[<-|[<-|[]]]]]]]; reflexivity. Qed.
 Print Assumptions function_pattern_fires_for_every_node_kind.
 
 (* the hypotheses of the partial theorem are satisfiable on a non-trivial instance: an import
@@ -174,17 +223,20 @@ Proof.
 Qed.
 Print Assumptions matcher_premise_satisfiable.
 
+Definition ex_facts (pa : bool) : Prop :=
+  (* main wins over its imports: the later of two rules of priority 0 / -0.5 ... *)
+  option_map t_id (find_template N ex_key ex_match pa true (compile ex_sheet) None 0%N false) = Some 11%N /\
+  option_map t_id (find_template N ex_key ex_match pa true (compile ex_sheet) None 1%N false) = Some 11%N /\
+  (* apply-imports from main: B (imported later) before A; inside B the later of equal priorities;
+     for <a> only C (imported by A) has rules: the later of the two *)
+  option_map t_id (find_template N ex_key ex_match pa true (compile ex_sheet) None 1%N true) = Some 41%N /\
+  option_map t_id (find_template N ex_key ex_match pa true (compile ex_sheet) None 0%N true) = Some 31%N.
+
 Example partial_theorem_applies :
   uniform_union_priorities ex_sheet = true /\
   filed_where_matching N ex_key ex_match ex_sheet 0%N = true /\
   filed_where_matching N ex_key ex_match ex_sheet 1%N = true /\
-  (* main wins over its imports: the later of two rules of priority 0 / -0.5 ... *)
-  option_map t_id (find_template N ex_key ex_match true (compile ex_sheet) None 0%N false) = Some 11%N /\
-  option_map t_id (find_template N ex_key ex_match true (compile ex_sheet) None 1%N false) = Some 11%N /\
-  (* apply-imports from main: B (imported later) before A; inside B the later of equal priorities;
-     for <a> only C (imported by A) has rules: the later of the two *)
-  option_map t_id (find_template N ex_key ex_match true (compile ex_sheet) None 1%N true) = Some 41%N /\
-  option_map t_id (find_template N ex_key ex_match true (compile ex_sheet) None 0%N true) = Some 31%N /\
+  ex_facts true /\ ex_facts false /\
   option_map (fun r => t_id (r_tmpl r)) (best_5_5 N ex_match (rules_of ex_sheet) None 1%N) = Some 11%N /\
   option_map (fun r => t_id (r_tmpl r)) (best_5_5 N ex_match (imported_rules ex_sheet) None 1%N) = Some 41%N.
 Proof. vm_compute. repeat split. Qed.
@@ -197,15 +249,15 @@ Print Assumptions partial_theorem_applies.
    onlyUseImports; that is the compiled sub-tree, and the choice is the section 5.5 maximum over
    the rules imported into that stylesheet (its own rules excluded), or none of them matches *)
 Theorem apply_imports_scope :
-  forall (node : Type) (key_of : node -> nkey) (pmatch : N -> node -> bool) s p sub mode n shape_of,
+  forall (node : Type) (key_of : node -> nkey) (pmatch : N -> node -> bool) pa s p sub mode n shape_of,
   subsheet s p = Some sub ->
-  uniform_union_priorities sub = true ->
+  pa = true \/ uniform_union_priorities sub = true ->
   matcher_respects_shapes node key_of pmatch sub n shape_of ->
   csubsheet (compile s) p = Some (compile sub) /\
   spec_choice node pmatch (imported_rules sub) mode n
-              (find_template node key_of pmatch true (compile sub) mode n true).
+              (find_template node key_of pmatch pa true (compile sub) mode n true).
 Proof.
-  intros node key_of pmatch s p sub mode n shape_of Hs Hu Hm. split.
+  intros node key_of pmatch pa s p sub mode n shape_of Hs Hu Hm. split.
   - rewrite csubsheet_compile, Hs. reflexivity.
   - apply apply_imports_lemma; [exact Hu|]. exact (filed_from_shapes node key_of pmatch sub n shape_of Hm).
 Qed.
@@ -238,32 +290,40 @@ Print Assumptions filing_complete_by_shape.
 (* ---------------------------------------------------------------------------------------- *)
 (* 5. "conflict warnings never change the choice" *)
 
-(* for every import tree, mode, node, for apply-templates and apply-imports alike, the
-   conflict-reporting path of findTemplate (scan by table priority, same-template skip, conflict
-   array) returns what the quiet path returns *)
+(* in both variants, for every import tree, mode, node, for apply-templates and apply-imports
+   alike, the conflict-reporting path of findTemplate (scan by table priority, skip of further
+   entries of the template just examined, conflict array) returns what the quiet path returns *)
 Theorem quiet_eq_nonquiet :
-  forall (node : Type) (key_of : node -> nkey) (pmatch : N -> node -> bool) s mode n only,
-  find_template node key_of pmatch false (compile s) mode n only =
-  find_template node key_of pmatch true (compile s) mode n only.
+  forall (node : Type) (key_of : node -> nkey) (pmatch : N -> node -> bool) pa s mode n only,
+  find_template node key_of pmatch pa false (compile s) mode n only =
+  find_template node key_of pmatch pa true (compile s) mode n only.
 Proof. exact quiet_eq_nonquiet_lemma. Qed.
 Print Assumptions quiet_eq_nonquiet.
 
 (* regression examples for the repaired defects K-new-1..3 (run-time score used as priority;
-   same match string skipped): the instances on which the two paths used to differ *)
+   same match string skipped): the instances on which the two paths used to differ, and an
+   instance for the skip of the per-alternative variant (the first alternative of the union
+   fails, the second one must still be examined) *)
 Definition st_t1 : template := {| t_id := 1; t_mode := None; t_prio := None; t_alts := [alt_a] |}.
 Definition st_t2 : template := {| t_id := 2; t_mode := None; t_prio := None;
                                   t_alts := [{| a_pat := 9; a_target := a_target alt_a; a_score := ScQName |}] |}.
 Definition alt_ax : alt := {| a_pat := 1; a_target := a_target alt_a; a_score := ScOther |}.
 Definition rt_t1 : template := {| t_id := 1; t_mode := None; t_prio := Some 250; t_alts := [alt_a] |}.
 Definition rt_t2 : template := {| t_id := 2; t_mode := None; t_prio := None; t_alts := [alt_ax] |}.
+Definition un_t : template := {| t_id := 3; t_mode := None; t_prio := Some 1000; t_alts := [alt_ab; alt_a] |}.
+
+Definition nq_facts (pa : bool) : Prop :=
+  (* two templates, the later one does not match: the earlier one is examined and chosen *)
+  option_map t_id (find_template N k1_key (fun p _ => (p =? 0)%N) pa false (compile (Sheet [ITmpl st_t1; ITmpl st_t2] [])) None 0%N false) = Some 1%N /\
+  (* match="a" priority="0.25" against match="a[@x]" (0.5): a[@x] *)
+  option_map t_id (find_template N k1_key (fun _ _ => true) pa false (compile (Sheet [ITmpl rt_t1; ITmpl rt_t2] [])) None 0%N false) = Some 2%N /\
+  (* match="a[b]|a" priority="1" on <a/>: adjacent entries of one template, the first fails *)
+  option_map t_id (find_template N k1_key k1_match pa false (compile (Sheet [ITmpl un_t] [])) None 0%N false) = Some 3%N.
 
 Example conflict_reporting_regressions :
-  (* match="a" / match="a[b]|*" on <a/>: both paths take the union (K1 is still there) *)
-  option_map t_id (find_template N k1_key k1_match false (compile k1_sheet) None 0%N false) = Some 2%N /\
-  option_map t_id (find_template N k1_key k1_match true (compile k1_sheet) None 0%N false) = Some 2%N /\
-  (* two templates, the later one does not match: the earlier one is examined and chosen *)
-  option_map t_id (find_template N k1_key (fun p _ => (p =? 0)%N) false (compile (Sheet [ITmpl st_t1; ITmpl st_t2] [])) None 0%N false) = Some 1%N /\
-  (* match="a" priority="0.25" against match="a[@x]" (0.5): a[@x] *)
-  option_map t_id (find_template N k1_key (fun _ _ => true) false (compile (Sheet [ITmpl rt_t1; ITmpl rt_t2] [])) None 0%N false) = Some 2%N.
+  nq_facts true /\ nq_facts false /\
+  (* match="a" / match="a[b]|*" on <a/>: whole-pattern variant: both paths take the union (K1) *)
+  option_map t_id (find_template N k1_key k1_match false false (compile k1_sheet) None 0%N false) = Some 2%N /\
+  option_map t_id (find_template N k1_key k1_match false true (compile k1_sheet) None 0%N false) = Some 2%N.
 Proof. vm_compute. repeat split. Qed.
 Print Assumptions conflict_reporting_regressions.
